@@ -4,6 +4,7 @@ import MdIt.Drv.Inst
 import MdIt.Drv.World
 import MdIt.Drv.Token
 import MdIt.Drv.Str
+import MdIt.Drv.Render
 open MdIt
 
 def handle (line : String) : String :=
@@ -15,6 +16,8 @@ def handle (line : String) : String :=
   | "world" :: rest => Drv.worldLine rest
   | "dictrt" :: rest => Drv.dictrtLine rest
   | "tree" :: rest => Drv.treeLine rest
+  | "render" :: rest => Drv.renderLine rest
+  | "alt" :: rest => Drv.afterRenderLine rest
   | "normalize" :: rest => Drv.strLine "normalize" rest
   | "cols" :: rest => Drv.strLine "cols" rest
   | "quote" :: rest => Drv.strLine "quote" rest
